@@ -7,14 +7,18 @@ has an explicit argument (`Oracle`): the order in which a `range` over a map yie
 (one permutation per map-range site and call) and the wall clock (`time.Now()`).  Determinism of
 block execution is then the statement that the result does not depend on the oracle.
 
-Mirrors, as they are:
-* `x/nodes/types/msg.go:NormalizeRewardDelegators` (ranges over the `RewardDelegators` map),
+Mirrors the code as it is now (after /repo commits a983e96, 286039a, 5a9379c):
+* `x/nodes/types/msg.go:NormalizeRewardDelegators` — ranges over the `RewardDelegators` map, then
+  **sorts the normalised slice by address** (`normalizeSorted`),
 * `x/nodes/keeper/reward.go:SplitNodeRewards` (+ its callers `blockReward`, `RewardForRelaysPerChain`:
-  one `SendCoins`/`mint` per share, in the order produced by the map range),
-* `x/nodes/keeper/valStateChanges.go:ValidateUnjailMessage` (`info.JailedUntil.After(time.Now())`),
-* `x/nodes/genesis.go:InitGenesis` (ranges over the `SigningInfos` / `MissedBlocks` maps and writes
-  one new store key per entry),
+  one `SendCoins`/`mint` per share, in the order of that slice) (`splitNodeRewardsSorted`),
+* `x/nodes/keeper/valStateChanges.go:ValidateUnjailMessage` — **block time only** (`unjailFixed`),
+* `x/nodes/genesis.go:InitGenesis` — keys of the `SigningInfos` / `MissedBlocks` maps are collected,
+  **sorted**, and one new store key per entry is written in that order (`sortedEntries`),
 * account creation = a new key in the IAVL tree of the `auth` substore (`PocketModel/Store/Iavl.lean`).
+
+The definitions of the code *before* those commits (`normalize`, `splitNodeRewards`, `unjailAsIs`) are
+kept: the historical counterexample theorems of `Props/C12.lean` are about them.
 -/
 namespace Determinism
 
@@ -112,7 +116,45 @@ def payTree (ver : Nat) (t : Iavl.Node) (ps : List (Bytes × Bytes)) : Iavl.Node
 def unjailAsIs (now blockTime jailedUntil : Int) : Bool :=
   !(jailedUntil > now) && !(blockTime < jailedUntil)
 
-/-- After the repair (the block-time comparison alone). -/
+/-- `ValidateUnjailMessage` as it is now (the block-time comparison alone). -/
 def unjailFixed (blockTime jailedUntil : Int) : Bool := !(blockTime < jailedUntil)
+
+/-! ## The code as it is now: sorted before use -/
+
+/-- `sort.Slice(normalized, bytes.Compare(addr_i, addr_j) < 0)`: `le` is the (total) address order. -/
+def sortByAddr (le : A → A → Bool) (n : List (A × Nat)) : List (A × Nat) :=
+  n.mergeSort (fun a b => le a.1 b.1)
+
+/-- `NormalizeRewardDelegators` as it is now. -/
+def normalizeSorted (le : A → A → Bool) (es : List (Option A × Nat)) : Option (List (A × Nat)) :=
+  (normalize es).map (sortByAddr le)
+
+/-- `SplitNodeRewards` as it is now: the callbacks in address order. -/
+def splitNodeRewardsSorted (le : A → A → Bool) (rewards : Int) (primary : A) (es : List (Option A × Nat)) :
+    Option (List (A × Int)) :=
+  if rewards ≤ 0 then none else (normalizeSorted le es).map (splitPays rewards primary)
+
+/-- The reward split as a map-range site of a block program: `delegators s` is the content of the
+proposer's / servicer's `RewardDelegators` map, `pay` applies the callbacks **at any level of
+detail** (balances, or the account tree with its shape). -/
+def rewardSite {σ : Type} (site : Nat) (le : A → A → Bool) (rewards : Int) (primary : A)
+    (delegators : σ → List (Option A × Nat)) (pay : List (A × Int) → σ → σ) : Prog σ :=
+  .range site delegators (fun l s =>
+    match splitNodeRewardsSorted le rewards primary l with
+    | none => s
+    | some ps => pay ps s)
+
+/-- `InitGenesis`: the keys of a genesis map collected and sorted (`sort.Strings`). -/
+def sortedEntries {κ β : Type} (le : κ → κ → Bool) (l : List (κ × β)) : List (κ × β) :=
+  l.mergeSort (fun a b => le a.1 b.1)
+
+/-- `InitGenesis` over one genesis map as a range site: `write` stores the records in the order given. -/
+def genesisSite {σ κ β : Type} (site : Nat) (le : κ → κ → Bool) (entries : σ → List (κ × β))
+    (write : List (κ × β) → σ → σ) : Prog σ :=
+  .range site entries (fun l s => write (sortedEntries le l) s)
+
+/-- The unjail check as a program node: no clock read at all. -/
+def unjailSite {σ : Type} (blockTime jailedUntil : Int) (apply : Bool → σ → σ) : Prog σ :=
+  .pure (apply (unjailFixed blockTime jailedUntil))
 
 end Determinism
